@@ -66,7 +66,7 @@ CLAIMS['C13'] = dict(
           "record sets are read through the pool's pointers (pointer.load) in the history traces and, on real references with records of every kind, through the variant-series conversion pool[tx] (GvfSeriesTrace: handed-out records = distinct record texts of a linear scan)."),
     technique="TLA+ format definition + state machine; TLC validation of recorded round trips and file histories", ref='6 C13')
 CLAIMS['C01'] = dict(
-    text=("spec/Variants.tla + Peptides.tla define, with no graph, the set C01 requires: for every compatible haplotype of the usable variants (adjacent same-class pairs merged as --max-adjacent-as-mnv does; alternative-splicing insertion / deletion / substitution records in the replace-[start,end)-by-alt form that Rmats.tla proves equal to their denotation), apply it to the transcript, translate from every permitted start to the stop (annotated Sec read as U, Sec-terminated forms and W>F images when those flags are on), digest under the case's rule/exception/miscleavage/limits incl. M-removed start peptides, and subtract the digest of the unmodified transcript (incl. its Sec-terminated / W>F forms when switched on) and the canonical pool. CallVariantOracle has TLC compute that set for each generated input and compare it with the FASTA the real callVariant wrote (Complete subset of output). 570 / 14 440 inputs over 19 mode slots (variants nested in inserted segments only with VERIF_NESTED=1): random references (both strands, coding/non-coding, multi-exon, NF tags, Sec, several genes), 1-5 small variants per transcript incl. dense clusters, adjacent and multi-allelic sites, variants aimed at stop codons (SNV, merged pair, MNV record, indels), alt-translation flags, Gly/Ala-rich proteins with binding mass limits, AS records, 13 / 35 enzymes, collapse knobs; complexity limits off."),
+    text=("spec/Variants.tla + Peptides.tla define, with no graph, the set C01 requires: for every compatible haplotype of the usable variants (adjacent same-class pairs merged as --max-adjacent-as-mnv does; alternative-splicing insertion / deletion / substitution records in the replace-[start,end)-by-alt form that Rmats.tla proves equal to their denotation), apply it to the transcript, translate from every permitted start to the stop (annotated Sec read as U, Sec-terminated forms and W>F images when those flags are on), digest under the case's rule/exception/miscleavage/limits incl. M-removed start peptides, and subtract the digest of the unmodified transcript (incl. its Sec-terminated / W>F forms when switched on) and the canonical pool. CallVariantOracle has TLC compute that set for each generated input and compare it with the FASTA the real callVariant wrote (Complete subset of output). 510 / 13 600 inputs over 17 modes (with VERIF_NESTED=1 a further mode asfs and variants nested in inserted segments): random references (both strands, coding/non-coding, multi-exon, NF tags, Sec, several genes), 1-5 small variants per transcript incl. dense clusters, adjacent and multi-allelic sites, variants aimed at stop codons (SNV, merged pair, MNV record, indels), alt-translation flags, Gly/Ala-rich proteins with binding mass limits, AS records, 13 / 35 enzymes, collapse knobs; complexity limits off."),
     note=("Bounded exhaustive per input (all haplotypes) but sampled over inputs; small variants inside one exon; fusion backbones are covered for coding donors whose exonic part kept contains the start codon, with the small variants of the donor and acceptor genes placed on the fused sequence (clause fusion_peptides_complete of FusionTrace on the C15 campaign; every compatible subset of the variants the tool's lookup takes), and circRNA backbones with the host transcript's small variants on the circle (clause circ_peptides_complete of CircTrace on the C17 campaign: circle read as four copies, every ATG of the first copy, every compatible subset of the variants lying inside a fragment off its first four bases and its last base); variants nested in an inserted AS segment are supported by the spec but off by default (VERIF_NESTED=1) because the tool's output for them is not deterministic run to run; recorded findings: cleavage patterns beyond P1/P1' evaluated per graph node, --naa-to-collapse 1, phantom cleavage sites in AS segments with nested variants."),
     technique='TLA+ definitional oracle evaluated by TLC per recorded input; implementation output validated against it', ref='12.4')
 CLAIMS['C02'] = dict(
